@@ -1343,6 +1343,14 @@ class CFG:
         if isinstance(e.ctx, ast.Load):
             self._node('load_sub', e)
 
+    def _e_BinOp(self, e: ast.BinOp) -> None:
+        self._expr(e.left)
+        self._expr(e.right)
+        # a division by something that is not a non-zero literal may raise ZeroDivisionError (`n / elapsed`)
+        if isinstance(e.op, (ast.Div, ast.FloorDiv)) and not (
+                isinstance(e.right, ast.Constant) and isinstance(e.right.value, (int, float)) and e.right.value):
+            self._node('divide', e)
+
     def _e_NamedExpr(self, e: ast.NamedExpr) -> None:
         self._expr(e.value)
         self._node('store_name', e.target, e.lineno, name=e.target.id, value=e.value, stmt=e)
@@ -1485,6 +1493,8 @@ class RaiseModel:
             return {'KeyError'}, False
         if k == 'del_sub':
             return {'KeyError'}, False
+        if k == 'divide':
+            return {'ZeroDivisionError'}, False
         if k == 'unpack':
             v = n.meta.get('value')
             if isinstance(v, (ast.Tuple, ast.List)) and len(v.elts) == n.meta['arity']:
@@ -1572,6 +1582,9 @@ class RaiseModel:
         name = info['name'] or ''
         if name in model.TOTAL_CALLS:
             return set()
+        if name == 'builtins.getattr' and len(call.args) == 3 and not call.keywords:
+            self.table_hits[name] = self.table_hits.get(name, 0) + 1
+            return set()            # getattr(o, name, default) does not raise AttributeError
         if name in model.CALL_RAISES:
             self.table_hits[name] = self.table_hits.get(name, 0) + 1
             return set(model.CALL_RAISES[name])
@@ -1748,6 +1761,24 @@ def is_user_value(cfg: CFG, name: ast.Name, _depth: int = 0) -> bool:
         v = r._alias.get(name.id)
         if isinstance(v, ast.Name) and v.id in bs.params:
             return True
+    # ... or something taken off one: `close = getattr(iterable, 'close', None)`, `cb = opts.on_done`
+    stores = [x for x in own_nodes(bs.node) if isinstance(x, ast.Assign) and len(x.targets) == 1
+              and isinstance(x.targets[0], ast.Name) and x.targets[0].id == name.id]
+    others = [x for x in own_nodes(bs.node) if isinstance(x, ast.Name) and x.id == name.id and isinstance(x.ctx, (ast.Store, ast.Del))]
+    if len(stores) == 1 and len(others) == 1 and _depth < 4:
+        v = stores[0].value
+        src = None
+        if isinstance(v, ast.Call) and isinstance(v.func, ast.Name) and v.func.id == 'getattr' and v.args and isinstance(v.args[0], ast.Name):
+            src = v.args[0]
+        elif isinstance(v, ast.Attribute) and isinstance(v.value, ast.Name):
+            src = v.value
+        if src is not None and src.id not in ('self', 'cls'):
+            saved = cfg.cur_scope
+            cfg.cur_scope = bs
+            try:
+                return is_user_value(cfg, src, _depth + 1)
+            finally:
+                cfg.cur_scope = saved
     return False
 
 
